@@ -1122,6 +1122,18 @@ for _n in ("C01", "C08", "C15", "C16"):
     MONITORS[_n + "re"] = _second(_n)
 
 
+def mon_c20_re(spec, run):
+    """the log of the second session (other size) judged like a first session's log"""
+    tr = second_session(run.trace)
+    if tr is None:
+        return []
+    spec2 = dict(spec, log_size=spec.get("log_size2", spec.get("log_size", 0)))
+    return [(k, "second session on the same connection object: " + w) for k, w in MONITORS["C20"](spec2, _SubRun(run, tr))]
+
+
+MONITORS["C20re"] = mon_c20_re
+
+
 def _two(name):
     def mon(spec, run):
         return MONITORS[name](spec, _SubRun(run, first_connection_only(run.trace)))
